@@ -275,10 +275,44 @@ def T_blockends():
     return t
 
 
+def T_handled():
+    """Runtime errors (not throw) recovered by except__ while operands are pending in the guarded block or between it and the
+    failing frame; error diagnostics are expected for these (only C05 runs them)."""
+    t = []
+
+    def add(name):
+        def deco(f):
+            t.append((name, f))
+            return f
+        return deco
+
+    @add("except-error-in-nested-call-pending-array")
+    def _(h, i): return [("rec", i.id(), ("except", [("arr", [("lit", 7), ("lit", 8), ("call", None, [i.m()] + h + [("err", "type")])]), i.m()], [i.m()])), i.m()]
+
+    @add("except-error-in-loop-pending-array")
+    def _(h, i): return [("rec", i.id(), ("except", [("arr", [("lit", 5), ("foreach", [1, 2], [i.m()] + h + [("err", "index"), i.m()])])], [i.m()])), i.m()]
+
+    @add("except-handler-ends-assign")
+    def _(h, i): return [("rec", i.id(), ("except", [("arr", [("lit", 1), ("lit", 2), ("call", None, [("err", "type")])])], h + [("assign", "_e%d" % i.id(), 1)])), i.m()]
+
+    @add("except-handler-yields-value")
+    def _(h, i): return [("rec", i.id(), ("except", [("arr", [("lit", 7), ("call", None, [("call", None, [("err", "type")])])])], [i.m()] + h + [("lit", 9)])), i.m()]
+
+    @add("except-nested-inner-handles")
+    def _(h, i): return [("rec", i.id(), ("except", [("arr", [("lit", 1), ("except", [("arr", [("lit", 2), ("call", None, [("err", "type")])])], [i.m()] + h)]), i.m()], [i.m(), ("lit", 3)])), i.m()]
+
+    @add("except-error-in-if-block-pending-array")
+    def _(h, i): return [("rec", i.id(), ("except", [("arr", [("lit", 4), ("if", True, [i.m()] + h + [("err", "count-behaviour"), i.m()], None)])], [])), i.m()]
+
+    return t
+
+
 TEMPLATES = T()
 BLOCKEND_TEMPLATES = T_blockends()
+HANDLED_TEMPLATES = T_handled()
 TNAMES = [n for n, _ in TEMPLATES]
-TBY = dict(TEMPLATES + BLOCKEND_TEMPLATES)
+TBY = dict(TEMPLATES + BLOCKEND_TEMPLATES + HANDLED_TEMPLATES)
+HNAMES = [n for n, _ in HANDLED_TEMPLATES]
 BNAMES = [n for n, _ in BLOCKEND_TEMPLATES]
 
 
